@@ -118,7 +118,7 @@ HistTerm(k, n) == IF M.sd[n].k = 0 THEN 0 ELSE M.sd[n].k * HistQuery(k - M.sd[n]
 (* one call of the generated RHS at step counter k with state yv and buffers b: returns <<dy, b'>> *)
 EvalRhsP(k, yv, b, roll) ==
   LET b2 == [s \in Nodes |-> IF HasBuffer(s) /\ roll THEN Roll(b[s], yv[s]) ELSE b[s]]
-      Deliver(e) == IF HasBuffer(e.s) THEN e.w * b2[e.s][SlotP(e) + 1] ELSE e.w * yv[e.s]
+      Deliver(e) == IF HasBuffer(e.s) /\ SlotP(e) > 0 THEN e.w * b2[e.s][SlotP(e) + 1] ELSE e.w * yv[e.s]     \* undelayed: the state itself
       dy == [n \in Nodes |-> M.c[n] + M.a[n] * yv[n] + ExtAt(n, k) + HistTerm(k, n)
                              + SumSeq([q \in 1..Len(E) |-> IF E[q].t = n THEN Deliver(E[q]) ELSE 0])]
   IN <<dy, b2>>
